@@ -27,7 +27,7 @@ from yvlib import hx, log
 LEVEL = "proof"
 TRUSTED = [
     "Coq 8.16.1 kernel (coqc), vm_compute; no native_compute, no extraction",
-    "translator/translate_c06.py (token shapes of break_statement, unwind_stack, try_statement, capture_upvalue, close_upvalues, add_upvalue, emit_scope_end) and translate.py (LOCALS_MAX, UPVALUES_MAX, opcode numbering)",
+    "translator/translate_c06.py (token shapes of break_statement, unwind_stack, try_statement, capture_upvalue, close_upvalues, add_upvalue, emit_scope_end, mark_initialised, mark_last_initialised, close_upvalue_impl, return_impl) and translate.py (LOCALS_MAX, UPVALUES_MAX, opcode numbering)",
     "hook H4 (vm.rs verif_trace, feature verif_hooks), the harness `yv` with ext_c06.rs `utrace`, tools/*.py (Python: generators, bytecode decoder, trace segmentation)",
     "ScopeLang.render (Coq) produces the source text that both sides run; the yarel scanner/parser turn it into the intended program (checked by the byte-level compiler correspondence)",
     "modelled, not verified: Rust raw-pointer arithmetic on the fiber stack (slot = (ptr - base)/size_of::<Value>), RefCell/Gc, the GC (closed upvalues stay alive)",
@@ -652,20 +652,63 @@ class G:
             return [("fun", k, [], body), ("expr", CALL(k))]
         return [("block", body)]
 
+    def t_fiberend(self):
+        """getter + setter closures over variables declared at the TOP LEVEL of a fiber's entry function, escaping to outer
+        holders and used after the fiber ran to its end (possibly after catching an error of its own); the captured variable holds
+        a HEAP object that nothing else references (a closure, or a vec holding one), there is allocation between the end of the
+        fiber and the uses (the debug build collects at every allocation), and reads / writes through both closures must go on
+        being shared"""
+        r = self.rng
+        self.tags.add("fiber_entry_locals_outlive_fiber")
+        get, put, c, k, a, a2, v, e, t = [self.fresh() for _ in range(9)]
+        how = r.choice(["closure", "vec", "closure"])
+        ending = r.choice(["end", "end", "error"])
+        self.tags.add("fiberend:%s:%s" % (how, ending))
+        counter = [("assign", c, ADD(V(c), V(a))), ("return", V(c))]
+        body = [("decl", self.fresh(), self.lit())] if r.random() < 0.4 else []
+        body.append(("decl", c, self.lit()))
+        if how == "closure":
+            body.append(("lam", k, [a], counter))
+            rd = CALL(k, V(a2))
+        else:
+            body += [("decl", k, ("vec",)), ("lam", t, [a], counter), ("vpush", k, V(t))]
+            rd = ("callidx", k, 0, [V(a2)])
+        body += self.publish(get, [a2], [("return", rd)]) + self.publish(put, [v], [("assign", k, V(v)), ("return", L(0))])
+        if r.random() < 0.5:
+            body.append(("print", CALL(get, L(1))))
+        if ending == "error":
+            # an error that leaves a fiber ends the whole run in yarel (the caller cannot catch it: see the repl probes for
+            # closures that outlive a failed run); here the fiber catches its own error as the last thing it does
+            body.append(("try", [("decl", self.fresh(), self.lit()), ("throw", L(7))], e, [("print", V(e))]))
+            self.top_only = True
+        scope = [("fiber", body)]
+        # afterwards: allocation, then reads through the getter, a write through the setter, reads again
+        k2, b, nv = self.fresh(), self.fresh(), self.fresh()
+        after = [("decl", self.fresh(), ("vec",)), ("print", CALL(get, L(1)))]
+        after += [("lam", k2, [b], [("return", ADD(L(100), V(b)))])]
+        after += [("print", CALL(get, L(2)))]
+        if how == "closure":
+            after += [("expr", CALL(put, V(k2)))]
+        else:
+            after += [("decl", nv, ("vec",)), ("vpush", nv, V(k2)), ("expr", CALL(put, V(nv)))]
+        after += [("decl", self.fresh(), ("vec",)), ("print", CALL(get, L(3))), ("print", CALL(get, L(4)))]
+        return [self.dummy(get, 1), self.dummy(put, 1)] + scope + after
+
     TEMPLATES = ["t_shared", "t_many", "t_deep", "t_params", "t_loop", "t_shadow", "t_escape", "t_exits", "t_throw",
-                 "t_reuse", "t_fiber", "t_selfrec", "t_adjacent"]
+                 "t_reuse", "t_fiber", "t_selfrec", "t_adjacent", "t_fiberend"]
 
     def program(self, allow_throw=True):
         r = self.rng
         self.n = 0
         self.tags = set()
+        self.top_only = False
         k = r.choice([1, 1, 2, 2, 3])
         names = [r.choice(self.TEMPLATES) for _ in range(k)]
         if not allow_throw:
             names = [n if n != "t_throw" else "t_shared" for n in names]
         parts = [getattr(self, n)() for n in names]
         # try statements stay at the top level of the program (one handler at a time); everything else may nest
-        if "t_throw" in names:
+        if "t_throw" in names or self.top_only:
             p = [s for part in parts for s in part]
             return p, sorted(self.tags | {"tmpl:" + n for n in names})
         p = []
@@ -995,6 +1038,34 @@ PROBES = [
     ("throw_inside_frame_caught_inside",
      "var G = nil; fn f() { var a = 1; try { var x = 5; G = || { x = x + 1; return x; }; throw 2; } catch e { print(e); } "
      "var b = 7; print(b); return a; } print(f()); print(G());", ["2", "7", "1", "6"], None),
+    # getter + setter closures over a local AND the parameter of a fiber's ENTRY function (both hold vectors built at run time, owned
+    # only by the variable), escaping to globals: used while the fiber is suspended, then after it ran to its end, with allocation
+    # in between
+    ("fiber_entry_locals_suspended_then_finished",
+     "var G = nil; var S = nil; var P = nil; var f = Fiber.new(|first| { var data = [first[0], first[0] + 1]; G = || data; "
+     "S = |v| { data = v; return data; }; P = |x| { first.push(x); return first; }; Fiber.yield(nil); data.push(first[0] + 2); }); "
+     "f.call([1]); print(G()); print(P(5)); var pad = [\"pad\"]; print(S([9])); print(G()); f.call(); var unrelated = [\"unrelated\"]; "
+     "print(G()); print(P(6)); print(S([7, 8])); var noise = [\"noise\"]; print(G()); print(P(7));",
+     ["[1, 2]", "[1, 5]", "[9]", "[9]", "[9, 3]", "[1, 5, 6]", "[7, 8]", "[7, 8]", "[1, 5, 6, 7]"], None),
+    # the entry function of a fiber left by `return` from inside a loop: its own local and the loop-body local stay captured
+    ("fiber_entry_return_from_loop",
+     "var G = nil; var H = nil; Fiber.new(|| { var d = [1]; G = |x| { d.push(x); return d; }; for i in 0..3 { var e = [i]; "
+     "H = |x| { e.push(x); return e; }; if i == 1 { return; } } }).call(); var pad = [\"pad\"]; print(G(2)); print(H(3)); "
+     "var pad2 = [\"pad2\"]; print(G(4)); print(H(5));", ["[1, 2]", "[1, 3]", "[1, 2, 4]", "[1, 3, 5]"], None),
+]
+
+# closures that OUTLIVE a run (repl sessions: one VM, several snippets): over block locals of the script, over locals of a fiber whose
+# error ended the whole run (an error leaving a fiber cannot be caught by its caller), over block locals of a script ended by an error;
+# (name, snippets, expected printed lines over the whole session)
+REPL_PROBES = [
+    ("closures_outlive_the_run",
+     ["var G = nil; var S = nil; { var d = [1, 2]; G = || d; S = |v| { d = v; return d; }; }",
+      "var pad = [\"pad\"]; print(G()); print(S([3])); print(G());",
+      "var H = nil; var T = nil; Fiber.new(|| { var q = [5]; H = || q; T = |v| { q = v; return q; }; { var z = [6]; G = || z; throw 1; } }).call();",
+      "var pad2 = [\"x\"]; print(H()); print(T([8])); var pad3 = [\"y\"]; print(H()); print(G());",
+      "{ var w = [1]; S = |x| { w.push(x); return w; }; throw 2; }",
+      "var pad4 = [\"z\"]; print(S(2)); var pad5 = [\"u\"]; print(S(3));"],
+     ["[1, 2]", "[3]", "[3]", "[5]", "[8]", "[8]", "[6]", "[1, 2]", "[1, 2, 3]"]),
 ]
 
 
@@ -1002,15 +1073,28 @@ def run_probes(ctx, stats):
     fast = ctx.harness("release")
     binary = ctx.harness("debug")
     recs = yvlib.run_harness(fast, ["run - " + hx(src) for _, src, _, _ in PROBES], case_timeout_ms=10000)
+    drecs = yvlib.run_harness(binary, ["run - " + hx(src) for _, src, _, _ in PROBES], case_timeout_ms=10000)
     trecs = yvlib.run_harness(binary, ["utrace - 20000 " + hx(src) for _, src, _, _ in PROBES], case_timeout_ms=20000)
+    # repl sessions, on both builds (the debug build collects at every allocation)
+    for name, snips, expect in REPL_PROBES:
+        line = "repl - " + " ".join(hx(x) for x in snips)
+        for build, b in (("release", fast), ("debug", binary)):
+            r = yvlib.run_harness(b, [line], case_timeout_ms=10000)[0]
+            got = norm_out(r.output)
+            if got != expect or r.crashed:
+                ctx.violation("repl probe %s (%s build): printed output differs from the expected one" % (name, build),
+                              input=" /// ".join(snips), expected=expect, actual=got + (["crashed: %s" % r.crashed] if r.crashed else []))
+                break
     terms, keep = [], []
-    for (name, src, expect, kc), r, t in zip(PROBES, recs, trecs):
-        got = norm_out(r.output)
-        if got != expect or r.result[0] != "ok":
-            ctx.violation("probe %s: printed output differs from the expected one" % name, input=src, expected=expect,
-                          actual=got + ([str(r.result)] if r.result[0] != "ok" else []), known_class=kc)
-            if kc:
-                stats["known"][kc] = stats["known"].get(kc, 0) + 1
+    for (name, src, expect, kc), r0, r1, t in zip(PROBES, recs, drecs, trecs):
+        for build, r in (("release", r0), ("debug", r1)):
+            got = norm_out(r.output)
+            if got != expect or r.result[0] != "ok":
+                ctx.violation("probe %s (%s build): printed output differs from the expected one" % (name, build), input=src,
+                              expected=expect, actual=got + ([str(r.result)] if r.result[0] != "ok" else []), known_class=kc)
+                if kc:
+                    stats["known"][kc] = stats["known"].get(kc, 0) + 1
+                break
         steps = parse_trace(t)
         if steps:
             groups, info = trace_groups(steps, parse_functions(t))
@@ -1027,7 +1111,7 @@ def run_probes(ctx, stats):
     for name, v in zip(keep, vals):
         if v is None or not v.startswith("ok"):
             ctx.corr_broken.append("trace replay through Upvalues.v on probe %s: %s" % (name, v))
-    return len(PROBES)
+    return len(PROBES) + len(REPL_PROBES)
 
 
 def limit_program(na, nb):
@@ -1117,8 +1201,15 @@ def evaluate(ctx, progs, tag, trace_n=0, want_code=True):
     live = [d for d in res if d is not None]
     recs = yvlib.run_harness(fast, ["run - " + hx(d["src"]) for d in live], case_timeout_ms=10000)
     crecs = yvlib.run_harness(fast, ["compile " + hx(d["src"]) for d in live], case_timeout_ms=10000) if want_code else [None] * len(live)
-    for d, r, c in zip(live, recs, crecs):
+    # the same sources on the DEBUG build, whose collector runs at every allocation: a captured variable that is no longer owned by
+    # anything the collector traces (an upvalue left open into a dead stack) shows there at once, in the release build only after
+    # enough allocation
+    drecs = yvlib.run_harness(binary, ["run - " + hx(d["src"]) for d in live], case_timeout_ms=10000)
+    for d, r, c, dr in zip(live, recs, crecs, drecs):
         d["impl"] = impl_outcome(r)
+        d["impl_debug"] = impl_outcome(dr)
+        if d["impl_debug"] != d["impl"] and d["impl"] == d["spec"]:
+            d["impl"], d["build"] = d["impl_debug"], "debug build, collector at every allocation; the release build prints the expected output"
         if c is not None:
             if c.result[0] != "ok":
                 d["code_mismatch"] = "real compiler rejects the rendered source: %s %s" % (c.result, c.messages[:2])
@@ -1184,7 +1275,8 @@ def judge(ctx, d, stats, tags=None, variant=None):
                 ctx.violation("output differs from the Spec (known class)", input=d["src"], expected=spec, actual=impl, known_class=kk,
                               prog=p)
         else:
-            ctx.violation("printed output differs from the reference evaluator (eval_cells)" + (" [variant %s]" % variant if variant else ""),
+            ctx.violation("printed output differs from the reference evaluator (eval_cells)" + (" [variant %s]" % variant if variant else "") +
+                          (" [%s]" % d["build"] if d.get("build") else ""),
                           input=d["src"], expected=spec, actual=impl, model=model, prog=p, tags=tags)
             if model != impl:
                 ctx.corr_broken.append("run_m != impl on %s : model %s impl %s" % (d["src"][:300], model, impl))
@@ -1408,7 +1500,7 @@ def run(ctx):
     ctx.cov.update({
         "evaluations": stats["evaluated"] + nscripts + nprobes + nlimits,
         "upvalue_limit_family": stats.get("limit_family", {}),
-        "probes_outside_the_mini_language": [n for n, _, _, _ in PROBES],
+        "probes_outside_the_mini_language": [n for n, _, _, _ in PROBES] + [n for n, _, _ in REPL_PROBES],
         "distinct_nontrivial": len(stats["nontrivial"]),
         "rule": "generated programs of the mini-language (templates: %s; each placed bare / in a block / in a function called once / in a loop / "
                 "in a fiber, 1-3 per program) plus their metamorphic wrappings; non-trivial = during the run a captured variable whose scope has "
